@@ -8,7 +8,9 @@ CONSTANTS MaxDev,     \* number of deviations from the base shape
           EditOps,    \* edit names explored
           Dims,       \* dimensions of the shape that may deviate
           ImgFmts, ImgNames,   \* AddImage argument classes
-          IdPool, NamePool     \* pools of the library's free choices (SpecMC only)
+          IdPool, NamePool,    \* pools of the library's free choices (SpecMC only)
+          SlimDims, SlimOps,   \* shapes that deviate in a dimension of SlimDims are explored with the edits of SlimOps only
+          DimGroups            \* {} or a set of sets of dimensions: a shape deviates within one group only
 
 VARIABLES devs, phase, st, hist
 vars == <<devs, phase, st, hist>>
@@ -21,18 +23,23 @@ SimpleOps == {"AddParagraph", "AddHeading", "AddFormattedParagraph", "AddListIte
               "AddPageBreak", "Save", "SaveFile", "Reopen", "Render", "SetPageMargins", "AddTable", "SetTitle",
               "SetFootnoteConfig"}
 
-EditsOf(s) ==
-     {[op |-> n] : n \in EditOps \cap SimpleOps}
-  \cup (IF "AddImage" \in EditOps THEN {[op |-> "AddImage", fmt |-> f, fn |-> x] : f \in ImgFmts, x \in ImgNames} ELSE {})
-  \cup (IF "AddHeader" \in EditOps THEN {[op |-> "AddHeader", t |-> t] : t \in {"default", "first"}} ELSE {})
-  \cup (IF "AddFooter" \in EditOps THEN {[op |-> "AddFooter", t |-> t] : t \in {"default"}} ELSE {})
-  \cup (IF "RemoveParagraphAt" \in EditOps THEN {[op |-> "RemoveParagraphAt", i |-> i] : i \in -1..Len(s.paras)} ELSE {})
+\* plan restrictions (which behaviours are enumerated, never what is demanded of them)
+OpsFor(D) == IF \E d \in D : d.dim \in SlimDims THEN EditOps \cap SlimOps ELSE EditOps
+GroupOK(D) == DimGroups = {} \/ \E g \in DimGroups : \A d \in D : d.dim \in g
+
+EditsFor(s, Ops) ==
+     {[op |-> n] : n \in Ops \cap SimpleOps}
+  \cup (IF "AddImage" \in Ops THEN {[op |-> "AddImage", fmt |-> f, fn |-> x] : f \in ImgFmts, x \in ImgNames} ELSE {})
+  \cup (IF "AddHeader" \in Ops THEN {[op |-> "AddHeader", t |-> t] : t \in {"default", "first"}} ELSE {})
+  \cup (IF "AddFooter" \in Ops THEN {[op |-> "AddFooter", t |-> t] : t \in {"default"}} ELSE {})
+  \cup (IF "RemoveParagraphAt" \in Ops THEN {[op |-> "RemoveParagraphAt", i |-> i] : i \in -1..Len(s.paras)} ELSE {})
+EditsOf(s) == EditsFor(s, OpsFor(devs))
 
 Init == devs = {} /\ phase = "shape" /\ st = Closed /\ hist = <<>>
 
 AddDev == /\ phase = "shape" /\ Cardinality(devs) < MaxDev
           /\ \E d \in DevPool \ devs :
-               /\ ShapeOK(devs \cup {d})
+               /\ ShapeOK(devs \cup {d}) /\ GroupOK(devs \cup {d})
                /\ devs' = devs \cup {d}
           /\ UNCHANGED <<phase, st, hist>>
 
